@@ -20,7 +20,7 @@ fn plain(v: &V) -> Vec<u8> { let mut s = Src::replay(&[]); let mut p = Printer::
 
 #[derive(Debug)]
 struct Case {
-    v: V, position: u8, n_members: usize, trailing_ws: bool, pad_first: usize, filters: Vec<u8>, filter_tape: Vec<u32>,
+    v: V, position: u8, n_members: usize, trailing_ws: u8, pad_first: usize, filters: Vec<u8>, filter_tape: Vec<u32>,
     // stream part
     stream_data: Vec<u8>, length_mode: u8,
 }
@@ -35,7 +35,8 @@ fn gen_case(s: &mut Src) -> Case {
     if kind != "v_int" { s.label(kind); }
     let n_members = 1 + s.draw(4) as usize;
     let position = if n_members == 1 { 2 } else { s.alt(1, &["pos_first", "pos_middle", "pos_last"]) as u8 };
-    let trailing_ws = s.alt(2, &["trailing_ws", "no_trailing_ws"]) == 0;
+    // members may also follow each other without any white-space: the offsets in the header delimit them
+    let trailing_ws = match s.alt(2, &["trailing_ws", "no_trailing_ws", "members_not_separated"]) { 0 => 0u8, 1 => 1, _ => 2 };
     let pad_first = if s.alt(3, &["first_tight", "first_padded"]) == 1 { 1 + s.draw(3) as usize } else { 0 };
     let nf = s.alt(2, &["objstm_unfiltered", "objstm_one_filter", "objstm_two_filters"]);
     let mut filters = Vec::new();
@@ -83,7 +84,8 @@ fn build(c: &Case) -> (Vec<u8>, Vec<u8>) {
         if c.length_mode == 2 { members.insert(0, (11, Obj::Int(c.stream_data.len() as i64))); }
         let tape = RefCell::new(c.filter_tape.clone());
         let enc = |d: &[u8]| encode_chain(&c.filters, &tape.borrow(), d);
-        w.objstm(6, &members, if c.trailing_ws { b"\n" } else { b"" }, c.pad_first, &enc);
+        if c.trailing_ws == 2 { objstm_tight(&mut w, 6, &members, c.pad_first, &enc); }
+        else { w.objstm(6, &members, if c.trailing_ws == 0 { b"\n" } else { b"" }, c.pad_first, &enc); }
         match c.length_mode {
             0 => w.obj(10, 0, &stream_obj(Obj::Int(c.stream_data.len() as i64))),
             1 => { w.obj(11, 0, &Obj::Int(c.stream_data.len() as i64)); w.obj(10, 0, &stream_obj(rf(11))); }
@@ -93,6 +95,24 @@ fn build(c: &Case) -> (Vec<u8>, Vec<u8>) {
         w.buf
     };
     (a, b)
+}
+
+/// object stream whose members are written back to back with no separator at all
+fn objstm_tight(w: &mut W, nr: u32, members: &[(u32, Obj)], pad_first: usize, encode: &dyn Fn(&[u8]) -> (Vec<(Vec<u8>, Obj)>, Vec<u8>)) {
+    let mut body = Vec::new();
+    let mut head = Vec::new();
+    for (n, o) in members {
+        head.extend_from_slice(format!("{} {} ", n, body.len()).as_bytes());
+        body.extend_from_slice(&mkpdf::obj_bytes(o));
+    }
+    for _ in 0..pad_first { head.push(b'\n'); }
+    let first = head.len();
+    let mut plain = head; plain.extend_from_slice(&body);
+    let (mut extra, data) = encode(&plain);
+    let mut d: Vec<(Vec<u8>, Obj)> = vec![(b"Type".to_vec(), name("ObjStm")), (b"N".to_vec(), Obj::Int(members.len() as i64)), (b"First".to_vec(), Obj::Int(first as i64))];
+    d.append(&mut extra);
+    w.obj(nr, 0, &Obj::Stream(d, data));
+    for (i, (n, _)) in members.iter().enumerate() { w.pending.insert(*n, mkpdf::XEntry::Compressed { stm: nr, idx: i as u32 }); }
 }
 
 fn el(e: &pdf::PdfError) -> String { format!("{}: {}", root_kind(e), format!("{}", crate::doc::root_cause(e)).lines().next().unwrap_or("")).chars().take(110).collect() }
